@@ -130,8 +130,8 @@ func Release(b []byte) {
 		full[i] = PoisonRelease
 	}
 	if Quarantine <= 0 {
-		delete(state, p)
-		delete(relSite, p)
+		// state stays "released" until the real pool hands the array out
+		// again (Get resets it), so a second release is still recognised.
 		mu.Unlock()
 		bytespool.Release(b)
 		return
@@ -157,9 +157,6 @@ func retire(e qent) {
 		}
 	}
 	mu.Lock()
-	p := unsafe.SliceData(e.b)
-	delete(state, p)
-	delete(relSite, p)
 	if bad >= 0 {
 		WriteAfterRelease++
 	}
